@@ -151,6 +151,12 @@ class Runner:
             print('   detail: %s' % d[:900])
         if nviol > 40:
             print('(... %d further violations not written out)' % (nviol - 40))
+        if nviol:
+            hist = {}
+            for case, f in violations:
+                hist[f['what']] = hist.get(f['what'], 0) + 1
+            for w, n in sorted(hist.items(), key=lambda kv: -kv[1]):
+                print('   %5d x %s' % (n, w[:200]))
         assumptions = list(assumptions or [])
         assumptions.append('compmech imported from %s (working tree)' % build.REPO)
         if self.status['rebuilt']:
